@@ -304,9 +304,11 @@ pub async fn run_history(h: &History) -> Vec<(String, String)> {
         }
         // probe: every connection must be in the state the reference tracker says
         for i in 0..conns.len() {
-            if conns[i].silent || conns[i].stalled && conns[i].live {
+            if (conns[i].silent || conns[i].stalled) && conns[i].live {
                 continue;
             }
+            // a silent (never handshaking) or stalled connection that the server must have closed:
+            // the peer must see the end of the stream
             // a stalled connection that the server must have closed: once the peer drains what is
             // in flight it must see the end of the stream
             if conns[i].live {
